@@ -74,6 +74,7 @@ class Model(object):
 _LIST = re.compile(r"\[[^\[\]]+\]")
 _NUM = re.compile(r"(?<![A-Za-z_#])-?\d+(?:\.\d+)?")
 _NUMS = re.compile(r"#(?:,#)+")
+_PAIRS = re.compile(r"#:#(?:,#:#)+")
 
 
 def line_kind(line):
@@ -85,7 +86,8 @@ def line_kind(line):
             break
         s = t
     s = _NUM.sub("#", s)
-    return _NUMS.sub("#,#", s)
+    s = _NUMS.sub("#,#", s)
+    return _PAIRS.sub("#:#,..", s)
 
 
 def run_batch(model, prop, items, use_driver=True, keep_samples=2):
